@@ -60,6 +60,9 @@ pub struct Plan {
     pub hold_outputs: bool,
     pub inject: Option<(When, usize, Stray)>,
     pub cancel: Option<(When, usize)>,
+    /// a second cancel (another party, another point); only `Step` and `AfterMsg` triggers
+    #[serde(default)]
+    pub cancel2: Option<(When, usize)>,
     /// fail (instead of deliver) the first coordination RPC of this kind from -> to
     pub fail_rpc: Option<(RpcKind, usize, usize)>,
     pub mismatch: Option<Mismatch>,
@@ -103,6 +106,10 @@ pub struct Obs {
     pub target_scheduled_before: bool,
     pub failed_rpc: bool,
     pub steps: usize,
+    /// coordination calls still in flight at final quiescence
+    pub inflight_calls: usize,
+    /// result of the second cancel
+    pub cancel2: Option<Option<Result<(), String>>>,
     /// the choices actually taken (replayable as `script`)
     pub choices: Vec<usize>,
 }
@@ -200,6 +207,8 @@ pub async fn explore(cfg: &SrvConfig, plan: &Plan, baseline_threads: usize) -> O
     let mut step = 0usize;
     let mut stray_task: Option<JoinHandle<()>> = None;
     let mut cancel_task: Option<JoinHandle<()>> = None;
+    let mut cancel2_done = plan.cancel2.is_none();
+    let mut cancel2_task: Option<JoinHandle<()>> = None;
     let mut inject_done = plan.inject.is_none();
     let mut cancel_done = plan.cancel.is_none();
     let mut failed = false;
@@ -289,6 +298,20 @@ pub async fn explore(cfg: &SrvConfig, plan: &Plan, baseline_threads: usize) -> O
                 stray_task = Some(do_inject(*target, stray, &world));
                 inject_done = true;
                 obs.trigger_fired = true;
+                quiesce(&ctl, baseline_threads).await;
+            }
+        }
+        if let Some((When::Step(k), target)) = &plan.cancel2 {
+            if !cancel2_done && *k <= step && cancel_done {
+                ctl.event(LogEv::Action(format!("second cancel ->{target} at step {step}")));
+                let h = world.handles[*target].clone();
+                let c2 = ctl.clone();
+                let t = *target;
+                cancel2_task = Some(tokio::spawn(async move {
+                    let r = h.cancel().await.map_err(|e| format!("{e:?}"));
+                    c2.event(LogEv::StrayDone { idx: 1000 + t, result: r });
+                }));
+                cancel2_done = true;
                 quiesce(&ctl, baseline_threads).await;
             }
         }
@@ -457,12 +480,19 @@ pub async fn explore(cfg: &SrvConfig, plan: &Plan, baseline_threads: usize) -> O
     obs.msgs = ctl.inner.lock().unwrap().msgs_issued;
     obs.pending_left = ctl.pending_ids().len();
     if plan.inject.is_some() {
-        obs.stray = Some(log.iter().find_map(|e| if let LogEv::StrayDone { result, .. } = e { Some(result.clone()) } else { None }));
+        obs.stray = Some(log.iter().find_map(|e| if let LogEv::StrayDone { idx, result } = e { (*idx < 1000).then(|| result.clone()) } else { None }));
     }
     if plan.cancel.is_some() {
         obs.cancel = Some(log.iter().enumerate().find_map(|(i, e)| if let LogEv::CancelDone { result, .. } = e { Some((result.clone(), i)) } else { None }));
     }
     obs.log_len = log.len();
+    obs.inflight_calls = ctl.inflight_calls();
+    if plan.cancel2.is_some() {
+        obs.cancel2 = Some(log.iter().find_map(|e| if let LogEv::StrayDone { idx, result } = e { (*idx >= 1000).then(|| result.clone()) } else { None }));
+    }
+    if let Some(t) = cancel2_task {
+        t.abort();
+    }
     for t in sched_tasks.into_iter().flatten() {
         t.abort();
     }
